@@ -415,3 +415,15 @@ Theorem sync_client_repeated_slashes_refuted_proved :
 Proof.
   split; [reflexivity|]. eexists. eexists. split; [vm_compute; reflexivity|]. split; [reflexivity|]. vm_compute. discriminate.
 Qed.
+
+(* ---------------------------------------------------------------- *)
+(* MultiaddrStringToNetAddr names the endpoint ToURL names            *)
+
+Theorem netaddr_agrees_with_to_url_proved m h :
+  netaddr_of m = Ok h ->
+  exists o, to_url m = Ok o /\ (o_host o = h \/ o_host o = cLBR :: h ++ [cRBR]).
+Proof.
+  unfold netaddr_of, to_url, to_url_with. destruct (last_is_net m && negb (first_is_dns m)); [|discriminate].
+  destruct (dial_args m) as [[h' v6]| |]; cbn [bind]; try discriminate. intro H. inversion H; subst.
+  eexists. split; [reflexivity|]. cbn [o_host]. destruct v6; auto.
+Qed.
